@@ -364,7 +364,7 @@ class Ptychography(PtychographyOpt, PtychographyVisualizations, PtychographyBase
                 1.0j * torch.angle(fourier_overlap)
             )
         else:  # necessary for mixed state # TODO check this with normalization
-            farfield_amplitudes = self.estimate_amplitudes(overlap_array, corner_centered=True)
+            farfield_amplitudes = torch.sqrt(torch.sum(torch.abs(fourier_overlap) ** 2, dim=0))
             farfield_amplitudes[farfield_amplitudes == 0] = torch.inf
             amplitude_modification = measured_amplitudes / farfield_amplitudes
             fourier_modified_overlap = amplitude_modification[None] * fourier_overlap
